@@ -25,6 +25,15 @@ variable {d b k nb bs n : Nat}
 
 /-! ### Direct (log-)density -/
 
+/-- The formula alone (it needs only the contract of the inverse routine on `S`). -/
+theorem logDensity_formula (inv : InvFn ℝ) (x : Mat ℝ d b) (m : Vec ℝ d) (S : Mat ℝ d d)
+    (hinv : InvOK inv S) (c : Fin b) :
+    logDensity inv x m S c
+      = -(1 / 2) * ((d : ℝ) * Real.log (2 * Real.pi) + Real.log (toM S).det
+          + dcol x m c ⬝ᵥ ((toM S)⁻¹ *ᵥ dcol x m c)) := by
+  simp only [logDensity, Vec.of_apply, logDensityFinal, quadForm_eq hinv, toV_col_diff, toM_detLU, natTo_eq,
+    transc_log, transc_pi, one_add_one_eq_two]
+
 /-- The log-density is `−½ (d log 2π + log det S + (x−m)ᵀ S⁻¹ (x−m))` for each column `x` of the batch;
     for positive-definite `S` the determinant is positive (the logarithm is defined) and `S` is
     invertible (the inverse is defined). -/
@@ -33,10 +42,18 @@ theorem logDensity_def (inv : InvFn ℝ) (x : Mat ℝ d b) (m : Vec ℝ d) (S : 
     0 < (toM S).det ∧ IsUnit (toM S) ∧
     logDensity inv x m S c
       = -(1 / 2) * ((d : ℝ) * Real.log (2 * Real.pi) + Real.log (toM S).det
-          + dcol x m c ⬝ᵥ ((toM S)⁻¹ *ᵥ dcol x m c)) := by
-  refine ⟨hS.det_pos, hS.isUnit, ?_⟩
-  simp only [logDensity, Vec.of_apply, logDensityFinal, quadForm_eq hinv, toV_col_diff, toM_detLU, natTo_eq,
-    transc_log, transc_pi, one_add_one_eq_two]
+          + dcol x m c ⬝ᵥ ((toM S)⁻¹ *ᵥ dcol x m c)) :=
+  ⟨hS.det_pos, hS.isUnit, logDensity_formula inv x m S hinv c⟩
+
+/-- The (log-)density depends on the covariance only through its matrix value. -/
+theorem density_congr (inv : InvFn ℝ) (x : Mat ℝ d b) (m : Vec ℝ d) (S S' : Mat ℝ d d)
+    (h : toM S = toM S') (hinv : InvOK inv S) (hinv' : InvOK inv S') (c : Fin b) :
+    logDensity inv x m S c = logDensity inv x m S' c ∧ density inv x m S c = density inv x m S' c := by
+  have e : logDensity inv x m S c = logDensity inv x m S' c := by
+    rw [logDensity_formula inv x m S hinv, logDensity_formula inv x m S' hinv', h]
+  refine ⟨e, ?_⟩
+  show Real.exp (logDensity inv x m S c) = Real.exp (logDensity inv x m S' c)
+  rw [e]
 
 /-- The density is the exponential of the log-density (hence positive). -/
 theorem density_eq_exp (inv : InvFn ℝ) (x : Mat ℝ d b) (m : Vec ℝ d) (S : Mat ℝ d d) (c : Fin b) :
@@ -100,9 +117,6 @@ theorem uvr_defined (inv : InvFn ℝ) (x : Mat ℝ (nb * bs) b) (m : Vec ℝ (nb
     IsUnit (toM R.full) ∧ IsUnit (1 + toM V * (toM R.full)⁻¹ * toM U) ∧ IsUnit (toM (assembleS U V R)) := by
   obtain ⟨h1, -, h3, h4⟩ := uvrAlg_spec x m U V R hR hM
   exact ⟨h1, h1 ▸ hPD.det_pos, h3, h4, hPD.isUnit⟩
-
-/-- An inverse routine that is correct on every invertible matrix. -/
-def InvCorrect (inv : InvFn ℝ) : Prop := ∀ (n : Nat) (A : Mat ℝ n n), IsUnit (toM A) → InvOK inv A
 
 /-- With a correct inverse routine the hypotheses reduce to: the blocks of `R` are invertible and
     `U V + R` is positive definite.  That `I + V R⁻¹ U` is invertible is then a consequence. -/
